@@ -293,6 +293,41 @@ theorem C17_total (L : Libs) (cfg : Cfg) (r : Req) :
       rcases decodeStage_error L cfg r capped st hres with h | h | h <;> simp [h]
     | ok o => cases o <;> simp
 
+/-- **C17_decode_wiring** — which request codings a server decodes: exactly zstd / gzip, if the runtime has them, minus zstd
+when `VGI_HTTP_DISABLE_ZSTD` is `"1"` — for every `compression_level` (response compression on or off). -/
+theorem C17_decode_wiring (runtime : List Enc) (env : Option (List Char)) (lvl : Option Int) (e : Enc) :
+    e ∈ mkDecode runtime env lvl ↔
+      (e = .zstd ∨ e = .gzip) ∧ e ∈ runtime ∧ ¬ (env = some "1".toList ∧ e = .zstd) := by
+  have hd : Gen.ReqBody.decodable.filterMap Enc.ofName = [.zstd, .gzip] := by decide
+  have hv : Gen.ReqBody.disableZstdValue.toList = "1".toList := by decide
+  simp only [mkDecode, zstdDisabled, hd, hv, List.mem_filter, List.mem_cons, List.not_mem_nil, or_false,
+    List.contains_eq_mem, decide_eq_true_eq, Bool.and_eq_true, Bool.not_eq_true', Bool.and_eq_false_iff, beq_iff_eq,
+    beq_eq_false_iff_ne, ne_eq]
+  constructor
+  · rintro ⟨⟨h1, h2, h3⟩, _⟩
+    exact ⟨h1, h2, fun ⟨ha, hb⟩ => by rcases h3 with h3 | h3 <;> simp_all⟩
+  · rintro ⟨h1, h2, h3⟩
+    refine ⟨⟨h1, h2, ?_⟩, h2⟩
+    by_cases ha : env = some "1".toList
+    · right; intro hb; exact h3 ⟨ha, hb⟩
+    · left; exact ha
+
+/-- **C17_415_disabled** — with the switch set, a zstd request body that passed the wire cap is refused with 415 whatever
+`compression_level` is. -/
+theorem C17_415_disabled (L : Libs) (cap : Option Nat) (exempt : List (List Char)) (runtime : List Enc) (lvl : Option Int)
+    (r : Req) (n : Nat) (hcl : r.contentLength = some n) (hn : ∀ c, cap = some c → n ≤ c)
+    (hce : Enc.ofValue (normalisedCoding r) = some .zstd) :
+    process L ⟨cap, mkDecode runtime (some "1".toList) lvl, exempt⟩ r = ⟨.status 415, 0, []⟩ := by
+  have hne : normalisedCoding r ≠ [] := by
+    intro h; rw [h, Aux.ofValue_nil] at hce; exact absurd hce (by simp)
+  apply C17_415 L _ r n hcl hn hne
+  refine Or.inr ⟨.zstd, hce, by simp, ?_⟩
+  have hnot : Enc.zstd ∉ mkDecode runtime (some "1".toList) lvl := by
+    intro hm
+    have := (C17_decode_wiring runtime (some "1".toList) lvl .zstd).mp hm
+    exact this.2.2 ⟨rfl, rfl⟩
+  simpa using hnot
+
 /-- **C17_terminates** — the decode stage always returns: zstd for every library behaviour, gzip for every decompress object
 that does not stall (empty chunk ⇒ input consumed or end of member). -/
 theorem C17_terminates (L : Libs) (hG : ∀ d, C18.Spec.NoStall (L.gzipView d).Z) (e : Enc) (d : Bytes) (cap : Option Nat) :
